@@ -27,7 +27,7 @@ GATES = {
     "interval_wider_than_image": 1,
     "point_interval": 1,
     "grid_with_out_of_interval_samples": 1,
-    "grid_of_equal_width_intervals": 1,
+    "grid_of_equal_width_intervals": 1, "grid_with_non_integer_bounds": 1,
     "nodata_in_right_window_fractional": 1,
     "zero_variance_window": 1,
     "width_equals_window": 1,
@@ -38,7 +38,7 @@ GATES = {
 }
 
 INTERVAL_KINDS = ["neg", "pos", "straddle", "point", "wide", "grid", "grid-points", "straddle", "grid-rowwise", "outside",
-                  "grid-band", "grid-pointvar"]
+                  "grid-band", "grid-pointvar", "grid-float"]
 
 
 def plan(tier, seed):
@@ -76,6 +76,8 @@ def cases(spec, ctx):
         yield {"work": "directed", "what": "grid-out"}
         yield {"work": "directed", "what": "grid-band"}
         yield {"work": "directed", "what": "grid-pointvar"}
+        for sp in (1, 2, 4):
+            yield {"work": "directed", "what": "grid-float", "sp": sp}
         yield {"work": "directed", "what": "nodata-right-frac"}
         yield {"work": "directed", "what": "zero-variance"}
         yield {"work": "directed", "what": "width-eq-window"}
@@ -118,6 +120,9 @@ def build(case, ctx):
         ikind = "grid"
     elif what in ("grid-band", "grid-pointvar"):
         ikind = what
+    elif what == "grid-float":
+        ikind = what
+        subpix = case["sp"]
     elif what == "nodata-right-frac":
         subpix, rmk, ikind = 4, "sparse", "straddle"
     elif what == "zero-variance":
@@ -146,7 +151,7 @@ def build(case, ctx):
     grid = None
     if ikind.startswith("grid"):
         lo, hi = -int(rng.integers(1, 5)), int(rng.integers(0, 5))
-        gk = {"grid": "random", "grid-points": "points", "grid-rowwise": "rowwise", "grid-band": "band", "grid-pointvar": "pointvar"}[ikind]
+        gk = {"grid": "random", "grid-points": "points", "grid-rowwise": "rowwise", "grid-band": "band", "grid-pointvar": "pointvar", "grid-float": "float"}[ikind]
         gmin, gmax = gen.grids(rng, rows, cols, lo, hi, gk)
         disp = (gmin, gmax)
         # right grids (needed for a validation step with left grids)
@@ -276,6 +281,7 @@ def run_case(case, ctx):
     ctx.gate("grid_with_out_of_interval_samples", int(desc["interval"].startswith("grid") and bool((dmin > gmin).any())))
     ctx.gate("grid_of_equal_width_intervals", int(desc["interval"] in ("grid-band", "grid-pointvar")
                                                   and bool((dmax - dmin == (dmax - dmin).flat[0]).all()) and bool((dmin != dmin.flat[0]).any())))
+    ctx.gate("grid_with_non_integer_bounds", int(desc["interval"] == "grid-float"))
     ctx.gate("width_equals_window", int(cols == w))
     ctx.gate("multiband", int(desc["bands"] > 1))
     ctx.gate("roi_offset_coordinates", int(desc["col0"] > 0))
